@@ -174,6 +174,7 @@ struct Result {
     std::vector<Death> deaths;
     std::vector<std::string> files;   // per-worker output files (concatenate to read results)
     uint64_t steps = 0;
+    bool gave_up = false;             // too many deaths: remaining steps were not executed
 };
 
 static inline Shared *alloc_shared() {
@@ -186,7 +187,7 @@ static inline Shared *alloc_shared() {
 // Runs items [0,n) on `workers` processes. `tmpdir` receives w<k>.bin result files.
 // subs_of(item) is needed only to know where to continue after a death in the last step.
 static inline Result run(uint64_t n, int workers, const std::string &tmpdir, const std::string &tag, const ItemFn &fn,
-                         double budget_scale = 1.0) {
+                         double budget_scale = 1.0, size_t max_deaths = 48) {
     Result res;
     if(workers < 1) workers = 1;
     if((uint64_t)workers > n && n > 0) workers = (int)n;
@@ -243,6 +244,13 @@ static inline Result run(uint64_t n, int workers, const std::string &tmpdir, con
             else d.kind = (WEXITSTATUS(status) == 86) ? DK_SANITIZER : DK_EXIT;
         }
         res.deaths.push_back(d);
+        if(res.deaths.size() >= max_deaths) {
+            // a persistent defect kills step after step: stop here, report what was found, mark the run incomplete
+            res.gave_up = true; w.done = true; live--;
+            for(auto &o : ws) if(!o.done && o.pid > 0) { kill(o.pid, SIGKILL); }
+            for(auto &o : ws) if(!o.done && o.pid > 0) { int st; waitpid(o.pid, &st, 0); o.done = true; live--; }
+            break;
+        }
         // continue after the step that died
         w.next_item = d.item; w.next_sub = d.sub + 1;
         w.sh->kind = DK_NONE; w.sh->note[0] = 0; w.sh->in_sub = 0;
